@@ -344,7 +344,7 @@ def rand_prim(rng, gen):
 
 
 def gen_specs(rng, gen, tag, n_classes=None, ignore_attr="_ignore", method="_serialize", local_ratio=0.35,
-              with_ignore=0.0, flavours=False):
+              with_ignore=0.0, flavours=False, adversarial=0.0):
     """
     Random hierarchy: 3-7 user classes (+ an enum, + Decimal), inheritance depth 0-3, slots/dict mixed,
     public/protected/name-mangled field names, serial classes with list or dict constructor arguments.
@@ -423,6 +423,9 @@ def gen_specs(rng, gen, tag, n_classes=None, ignore_attr="_ignore", method="_ser
             specs.append(gen_enum_spec(rng, tag, j, rng.choice(mods)))
         if rng.random() < 0.5:
             members = members + [("AZURE", 1)]  # an alias: Colour.AZURE is Colour.BLUE
+    if adversarial and rng.random() < adversarial:
+        # an enumeration whose values collide with what else identifies a member (names, aliases, reprs, indices)
+        specs.append(gen_adversarial_enum_spec(rng, tag, rng.choice(mods)))
     specs.append({"id": "e_%s" % tag, "module": emod, "name": "Colour%s" % tag.capitalize(), "bases": [], "slots": None,
                   "kind": "enum", "members": members, "class_attrs": {}})
     specs.append(dict(DEC_SPEC))
@@ -483,6 +486,149 @@ def gen_enum_spec(rng, tag, j, module):
             spec["auto"] = ["LOWER"]
     spec["members"] = members
     return spec
+
+
+ADVERSARIAL_PATTERNS = ["swap-names", "alias-names", "reprs", "indices", "containers", "attr-names", "equal-numbers", "mixed"]
+ADV_NAME_POOLS = [["LEFT", "RIGHT", "UP", "DOWN", "CENTER"], ["A", "B", "C", "D", "E"], ["ON", "OFF", "AUTO"],
+                  ["N0", "N1", "N2", "N3"], ["X", "Y"]]
+
+
+def gen_adversarial_enum_spec(rng, tag, module, pattern=None):
+    """A plain `Enum` (not derived from a primitive type) whose member VALUES collide with the other things a member can be
+    identified by: the name of another member (or of an alias of another member, or its own name), the `str` / `repr` of
+    another member, the position of another member in the definition order (0- and 1-based, as int and as digits), the name
+    of an attribute of the class, numbers that are `==` across types, and containers that hold such things.  The only correct
+    reading of the transmitted `[value]` is "the member with this value" — every other reading picks a wrong member here."""
+    pattern = pattern or rng.choice(ADVERSARIAL_PATTERNS)
+    cname = "Adv%s" % tag.capitalize()
+    spec = {"id": "a_%s" % tag, "module": module, "name": cname, "bases": [], "slots": None, "kind": "enum",
+            "flavour": "Enum", "class_attrs": {}, "auto": [], "pattern": pattern}
+    names = list(rng.choice(ADV_NAME_POOLS))
+    k = rng.randint(2, len(names))
+    names = names[:k]
+
+    def derangement():
+        while True:
+            perm = list(range(k))
+            rng.shuffle(perm)
+            if any(i != j for i, j in enumerate(perm)):
+                return perm
+
+    def swap_names():
+        perm = derangement()
+        return [(n, names[perm[i]]) for i, n in enumerate(names)]
+
+    def alias_names():
+        # FIRST = 1, ALIAS = 1 (alias of FIRST); the others are valued with names of aliases / of other members
+        ms = [(names[0], 1), ("ALIAS", 1), (names[1], "ALIAS")]
+        for i, n in enumerate(names[2:]):
+            ms.append((n, [names[0], "ALIAS", names[1]][i % 3]))
+        if rng.random() < 0.5:
+            ms.append(("SECOND_ALIAS", "ALIAS"))  # an alias of names[1] whose value is the name of the other alias
+        return ms
+
+    def reprs():
+        ms = [(names[0], 1)]
+        shapes = ["%s.%s" % (cname, names[0]), "<%s.%s: 1>" % (cname, names[0]), names[0].lower(), " " + names[0],
+                  names[0] + " ", "%s.%s.%s" % (module, cname, names[0]), "1"]
+        rng.shuffle(shapes)
+        for n, v in zip(names[1:], shapes):
+            ms.append((n, v))
+        return ms
+
+    def indices():
+        style = rng.choice(["zero-based", "one-based", "digits", "negative"])
+        perm = derangement()
+        if style == "zero-based":
+            return [(n, perm[i]) for i, n in enumerate(names)]
+        if style == "one-based":
+            return [(n, perm[i] + 1) for i, n in enumerate(names)]
+        if style == "digits":
+            return [(n, str(perm[i] + rng.randint(0, 1))) for i, n in enumerate(names)]
+        return [(n, -1 - perm[i]) for i, n in enumerate(names)]
+
+    def containers():
+        perm = derangement()
+        shapes = [lambda x: [x], lambda x: [[x]], lambda x: {"name": x}, lambda x: (x,), lambda x: [x, x],
+                  lambda x: {"value": x, "name": None}, lambda x: [x, 1]]
+        ms = [(n, rng.choice(shapes)(names[perm[i]])) for i, n in enumerate(names)]
+        if rng.random() < 0.5:
+            ms.append(("EMPTY", []))
+        if rng.random() < 0.3:
+            ms.append(("EMPTYD", {}))
+        return ms
+
+    def attr_names():
+        pool = ["name", "value", "_value_", "_name_", "__members__", "__class__", "mro", "_member_map_", "__doc__",
+                "_value2member_map_", "__name__", "__init__"]
+        return [(n, v) for n, v in zip(names, rng.sample(pool, k))]
+
+    def equal_numbers():
+        # 1 == True == 1.0 and 0 == False == 0.0: later ones are aliases; strings that spell them are not
+        pool = [("I1", 1), ("B1", True), ("F1", 1.0), ("I0", 0), ("B0", False), ("F0", 0.0), ("S1", "1"), ("S0", "0"),
+                ("ST", "True"), ("NONE", None), ("SN", "None"), ("SE", ""), ("F2", 2.0), ("I2", 2), ("NEG0", -0.0)]
+        rng.shuffle(pool)
+        return pool[:rng.randint(3, 8)]
+
+    makers = {"swap-names": swap_names, "alias-names": alias_names, "reprs": reprs, "indices": indices,
+              "containers": containers, "attr-names": attr_names, "equal-numbers": equal_numbers}
+    if pattern == "mixed":
+        members = swap_names()
+        seen = set(n for n, _v in members)
+        for other in rng.sample(["alias-names", "reprs", "indices", "containers", "attr-names"], 2):
+            for n, v in makers[other]():
+                if n not in seen:
+                    seen.add(n)
+                    members.append((n, v))
+    else:
+        members = makers[pattern]()
+    if rng.random() < 0.4:
+        members.append(("PLAIN", "nothing"))
+    spec["members"] = members
+    return spec
+
+
+def adversarial_member_class(m):
+    """Which collision the value of this member stages (for the distribution histogram); computed from the real class."""
+    c = type(m)
+    v = m.value
+    table = c.__members__
+
+    def holds_name(x):
+        if isinstance(x, str):
+            return x in table
+        if isinstance(x, dict):
+            return any(holds_name(y) for y in x.values())
+        if isinstance(x, (list, tuple)):
+            return any(holds_name(y) for y in x)
+        return False
+
+    if isinstance(v, str):
+        if v in table:
+            if table[v] is m:
+                return "value-is-own-name"
+            canonical = v == table[v].name
+            return "value-is-name-of-other-member" if canonical else "value-is-alias-of-other-member"
+        if any(v in (str(x), repr(x)) for x in c):
+            return "value-is-str-or-repr-of-other-member"
+        if v.strip().upper() in table or v.rsplit(".", 1)[-1] in table:
+            return "value-is-near-a-name"
+        if v.lstrip("-").isdigit():
+            return "value-is-digits"
+        if v and hasattr(c, v):
+            return "value-is-attribute-name"
+        return "plain-string"
+    if type(v) is int:
+        order = list(c)
+        n = len(order)
+        if -n <= v <= n:
+            return "value-is-index-of-other-member"
+        return "plain-int"
+    if isinstance(v, (bool, float)) or v is None:
+        return "number-or-none"
+    if isinstance(v, (list, tuple, dict)):
+        return "container-holding-a-name" if holds_name(v) else "container"
+    return "other"
 
 
 def _written_names(specs, cid):
@@ -614,7 +760,8 @@ class ValueGen(object):
         rng = self.rng
         env = self.env
         if cid is None:
-            cid = rng.choice([s["id"] for s in env.specs])
+            # an adversarial enumeration (spec key "pattern") is drawn three times as often as another class
+            cid = rng.choice([s["id"] for s in env.specs for _ in range(3 if s.get("pattern") else 1)])
         s = env.by_id[cid]
         c = env.cls[cid]
         if s["kind"] == "decimal":
